@@ -239,7 +239,9 @@ func runC14(c *rt.Ctx) {
 	c.Assume("laws need no external order; helper validity comes from harness/ref/semver.go")
 	{
 		sc := rt.ReplayCtx("C14")
-		sc.Serial("selftest", func(w *rt.W) { w.Fail("antisymmetry", "laws", nil, "cmp(a,b)=-1 cmp(b,a)=-1", "opposite signs", "synthetic") })
+		sc.Serial("selftest", func(w *rt.W) {
+			w.Fail("antisymmetry", "laws", nil, "cmp(a,b)=-1 cmp(b,a)=-1", "opposite signs", "synthetic")
+		})
 		c.SelfTest("monitor-records-a-mismatch", sc.Violations() == 1)
 		c.SelfTest("helper-validity-oracle", textValidFor("v1.2.3", false, true) && !textValidFor("v1.2.3", true, false) && textValidFor("1.2.3-a", true, true) && !textValidFor("1.2", true, true) && !textValidFor("18446744073709551616.0.0", true, true))
 	}
